@@ -283,7 +283,11 @@ std::vector<K> gen_keys(TapeReader &t, const GenOpts &o, KeyMeta &meta) {
         const size_t n = 66000 + t.below(70000);
         const unsigned fam = (unsigned) t.below(4); // gap_j = A +- floor(B * f(j)), f = sqrt(j) | j | log2(1+j) | j^2/n
         const bool shrinking = t.chance(1, 2);
-        const double delta = (2 + t.below(14)) / 10.0; // deviation of the whole curve from its best line, in units of epsilon
+        // deviation of the whole curve from its best line, in units of epsilon.  Far below epsilon the feasible slope range stays wide and
+        // the builder never drops old hull vertices (the live hull grows to n entries and its vector must reallocate); around epsilon the
+        // range narrows, the front of the hull advances and the dead prefix is what gets compacted when the vector is full
+        static const double deltas[] = {0.01, 0.03, 0.1, 0.2, 0.4, 0.7, 1.0, 1.5};
+        const double delta = deltas[t.below(8)];
         meta.threads = o.allow_threads ? (t.chance(3, 4) ? 1 : 1 + (int) t.below(3)) : 1;
         const long double B = fam == 0 ? 3.0L * std::sqrt((long double) n) * (1 + t.below(3)) : fam == 1 ? (long double) (1 + t.below(3))
                               : fam == 2 ? 1.5L * (long double) n * (1 + t.below(3)) : (long double) (2 + t.below(3));
